@@ -31,6 +31,13 @@ pub struct Wire {
     pub staged: VecDeque<Vec<u8>>,
     pub eof: bool,
     pub read_err: bool,
+    /// the io::ErrorKind of injected read / write errors
+    pub read_err_kind: io::ErrorKind,
+    pub write_err_kind: io::ErrorKind,
+    /// a transient read error: the next poll_read answers Err(kind) once, then carries on
+    pub read_err_once: Option<io::ErrorKind>,
+    /// the write half answers Ok(0) to every non-empty write (a closed pipe in some transports)
+    pub write_zero: bool,
     pub read_waker: Option<Waker>,
     /// true = inbound bytes are withheld (see DESIGN 3.3, gating rule)
     pub gate_closed: bool,
@@ -62,6 +69,10 @@ impl Wire {
             staged: VecDeque::new(),
             eof: false,
             read_err: false,
+            read_err_kind: io::ErrorKind::ConnectionReset,
+            write_err_kind: io::ErrorKind::BrokenPipe,
+            read_err_once: None,
+            write_zero: false,
             read_waker: None,
             gate_closed: false,
             zero_len_reads: 0,
@@ -116,6 +127,9 @@ impl AsyncRead for MockRead {
             w.read_waker = Some(cx.waker().clone());
             return Poll::Pending;
         }
+        if let Some(k) = w.read_err_once.take() {
+            return Poll::Ready(Err(io::Error::new(k, "mock (transient)")));
+        }
         if let Some(front) = w.staged.front_mut() {
             let n = front.len().min(buf.len());
             buf[..n].copy_from_slice(&front[..n]);
@@ -129,7 +143,8 @@ impl AsyncRead for MockRead {
         }
         if w.read_err {
             w.eof_reported = true;
-            return Poll::Ready(Err(io::Error::new(io::ErrorKind::ConnectionReset, "mock")));
+            let k = w.read_err_kind;
+            return Poll::Ready(Err(io::Error::new(k, "mock")));
         }
         if w.eof {
             w.eof_reported = true;
@@ -155,9 +170,9 @@ impl AsyncWrite for MockWrite {
             }
         }
         if w.write_err {
-            return Poll::Ready(Err(io::Error::new(io::ErrorKind::BrokenPipe, "mock")));
+            return Poll::Ready(Err(io::Error::new(w.write_err_kind, "mock")));
         }
-        if buf.is_empty() {
+        if buf.is_empty() || w.write_zero {
             return Poll::Ready(Ok(0));
         }
         if let Some(b) = w.hard_budget {
@@ -229,7 +244,7 @@ impl AsyncWrite for MockWrite {
     fn poll_flush(self: Pin<&mut Self>, _cx: &mut Context<'_>) -> Poll<io::Result<()>> {
         let w = self.0.borrow();
         if w.write_err {
-            return Poll::Ready(Err(io::Error::new(io::ErrorKind::BrokenPipe, "mock")));
+            return Poll::Ready(Err(io::Error::new(w.write_err_kind, "mock")));
         }
         Poll::Ready(Ok(()))
     }
